@@ -353,6 +353,7 @@ def main():
     seen = {}
     allbounds = {}
     scripts = []
+    items = {}
     for filt, want_cls in (('NLReader', ('NLReader',)), ('TextReader', ('TextReader',)), ('BinaryReader', ('BinaryReader', 'BinaryReaderBase'))):
         docs = clang_dump(tu, filt, [os.path.join(repo, 'include'), os.path.join(repo, 'src')])
         for d in docs:
@@ -375,6 +376,27 @@ def main():
                     if scripts and scripts[0] != hs:
                         raise TranslateError('ReadHeader script differs between instantiations')
                     scripts.append(hs)
+                recs = [p for p in path if p.get('kind') == 'CXXRecordDecl' and p.get('name', '').endswith('Handler')]
+                if n.get('name') == 'num_items' and recs and specs[-1].get('name') == 'NLReader':
+                    body_ = [c for c in n.get('inner', []) if c.get('kind') == 'CompoundStmt'][0]
+                    rets = find_all(body_, lambda x: x.get('kind') == 'ReturnStmt')
+                    if len(rets) != 1:
+                        raise TranslateError('num_items of %s: expected one return' % recs[-1]['name'])
+                    gi = GuardFn(n)
+                    fv, e = gi.guard(rets[0]['inner'][0])
+                    val = (fv, e)
+                    if recs[-1]['name'] in items and items[recs[-1]['name']] != val:
+                        raise TranslateError('num_items of %s differs between instantiations' % recs[-1]['name'])
+                    items[recs[-1]['name']] = val
+                    return
+                if n.get('name') == 'Read' and specs[-1].get('name') == 'NLReader':
+                    for asg in find_all(n, lambda x: x.get('kind') == 'BinaryOperator' and x.get('opcode') == '=' and
+                                        strip(x['inner'][0]).get('kind') == 'MemberExpr' and strip(x['inner'][0]).get('name') == 'num_vars_and_exprs_'):
+                        ga = GuardFn(n)
+                        val = ga.guard(asg['inner'][1])
+                        if 'nvae' in items and items['nvae'] != val:
+                            raise TranslateError('num_vars_and_exprs_ assignment differs between instantiations')
+                        items['nvae'] = val
                 local_res, local_struct, local_b = [], {}, []
                 process_function(n, local_res, local_struct, rk, local_b)
                 for bnd in local_b:
@@ -431,6 +453,45 @@ def main():
             L.append('def %s %s : Outcome Int :=\n  %s\n' % (nm, ' '.join('(%s : Int)' % v for v in fv), e))
             names.append(nm)
             ptab[nm] = fv
+    # ---- header-record versions: the field a bound reads is a projection in generated code, not a name in a table
+    if 'nvae' not in items:
+        raise TranslateError('assignment to num_vars_and_exprs_ not found in NLReader::Read')
+    mfields = []
+    def addm(fv):
+        for v in fv:
+            if v.startswith('m_') and v not in mfields:
+                mfields.append(v)
+    site_defs = []
+    for (cls, fn, ci), args in sorted(allbounds.items()):
+        for ai, (fv, e) in enumerate(args):
+            if fv and all(v.startswith('m_') for v in fv):
+                addm(fv)
+                nm = 'bound_%s_%s_%d_%s' % (cls, fn, ci, 'ub' if ai == len(args) - 1 else 'lb')
+                site_defs.append(('site_%s_%s_%d_%s' % (cls, fn, ci, 'ub' if ai == len(args) - 1 else 'lb'), nm, fv))
+    for k2, (fv, e) in items.items():
+        addm(fv)
+    L.append('/-- the `NLHeader` fields (and the `NLReader` member `num_vars_and_exprs_`) the index bounds read -/')
+    L.append('structure Hdr where')
+    for v in mfields:
+        L.append('  %s : Int' % v)
+    L.append('')
+    for snm, bnm, fv in site_defs:
+        L.append('/-- the bound of this call site as a function of the header record (the field is selected here) -/')
+        L.append('def %s (h : Hdr) : Outcome Int := %s %s' % (snm, bnm, ' '.join('h.%s' % v for v in fv)))
+        names.append(snm); ptab[snm] = fv
+    L.append('')
+    for k2 in sorted(items):
+        fv, e = items[k2]
+        if not all(v.startswith('m_') for v in fv):
+            raise TranslateError('%s reads something that is not a header field: %s' % (k2, fv))
+        nm = 'assign_num_vars_and_exprs' if k2 == 'nvae' else 'items_%s' % k2
+        doc = '`num_vars_and_exprs_ = ...` in NLReader::Read' if k2 == 'nvae' else '`%s::num_items()`' % k2
+        L.append('/-- %s -/' % doc)
+        body = e
+        for v in fv:
+            body = re.sub(r'\b%s\b' % v, 'h.%s' % v, body)
+        L.append('def %s (h : Hdr) : Outcome Int :=\n  %s\n' % (nm, body))
+        names.append(nm); ptab[nm] = fv
     L.append('/-- free variables (source names) of every translated definition, in parameter order -/')
     L.append('def paramTable : List (String × List String) := [' + ', '.join('("%s", [%s])' % (n, ', '.join('"%s"' % v for v in ptab[n])) for n in names) + ']')
     L.append('')
